@@ -379,6 +379,8 @@ def map_follow(ctx, base, meta, in_hist, case):
         return
     g = Graph([node], name="c06m")
     provided = {fm[n]: f"to:{fm[n]}" for n in names if n != "a"}
+    cloned_obj = [f"to:{fm[others[0]]}"]  # a mutable object: sharing vs copying per item is observable
+    provided[fm[others[0]]] = cloned_obj
     provided[fm["a"]] = ["item0", "item1", "item2"]
     rt.new_rec()
     try:
@@ -391,6 +393,15 @@ def map_follow(ctx, base, meta, in_hist, case):
     got = [c.get("a") for c in calls]
     if got != ["item0", "item1", "item2"]:
         ctx.violation("C06:map-items", f"inner parameter a received {got} over the mapped runs, expected one item each (history {in_hist})", case)
+        return
+    # the clone list follows the renames too: the parameter listed in clone=[...] is deep-copied per item, under
+    # whatever external name it goes by now (also when that name is one the mapped parameter used to have)
+    consumer = next((f for f in meta["fids"] if any(others[0] in c for c in rt.CUR.invocations().get(f, []))), None)
+    if consumer is not None:
+        objs = [c[others[0]] for c in rt.CUR.invocations()[consumer]]
+        ctx.obs["clone_follow_checked"] += 1
+        if any(o is cloned_obj for o in objs) or len({id(o) for o in objs}) != len(objs) or any(o != cloned_obj for o in objs):
+            ctx.violation("C06:clone-not-followed", f"clone=[{others[0]!r}] before history {in_hist}: the items received {'the caller\'s own object' if any(o is cloned_obj for o in objs) else 'shared/altered copies'} for that parameter (now called {fm[others[0]]!r})", case)
 
 
 def alpha_graph(ctx, i):
